@@ -26,6 +26,8 @@ CONSTANTS
   Nil,
   MaxTerm, MaxLog,          \* bounds on terms and log length
   MaxTimer, MaxAE, MaxClient, MaxCrash, MaxHalf,   \* budgets (bounded inside Next)
+  MaxSnap,     \* snapshots that may be armed (0 = snapshots off)
+  SnapSize,    \* 1: a snapshot fits one request; 2: it takes the code's two requests (everything, then empty + Done)
   AsyncKinds,  \* subset of {"rv", "ae"} handled through `net'
   MaxNet,      \* messages in flight (async kinds)
   W,           \* weakenings in force (set of strings), {} for the real protocol
@@ -62,6 +64,22 @@ Prefix(lg, i) == [lg EXCEPT !.ents = SubSeq(lg.ents, 1, i - lg.base)]     \* kee
 Suffix(lg, i) == SubSeq(lg.ents, i - lg.base, Len(lg.ents))               \* entries with index >= i
 AppendTo(lg, es) == [lg EXCEPT !.ents = lg.ents \o es]
 
+Compact(lg, i) == [base |-> i, bterm |-> TermAt(lg, i), ents |-> Suffix(lg, i + 1)]
+
+\* takeSnapshot, run by the snapshot loop once the apply loop has applied everything committed
+\* (the state machine asked for it: `arm'): label = lastApplied, log compacted there
+TakeSnapshot(s) ==
+  IF s.arm /\ s.commit > s.li.idx /\ HasIdx(s.log, s.commit)
+    THEN LET lbl == [idx |-> s.commit, term |-> TermAt(s.log, s.commit)] IN
+         [s EXCEPT !.arm = FALSE, !.snap = lbl, !.li = lbl, !.log = Compact(s.log, s.commit),
+                   !.soff = [p \in Node |-> 0]]          \* resetSnapshotFiles
+    ELSE s
+
+\* a node that kept its log when it installed a snapshot compacts it once it has applied the boundary
+CompactParked(s) ==
+  IF s.li.idx > s.log.base /\ s.commit >= s.li.idx /\ HasIdx(s.log, s.li.idx) THEN [s EXCEPT !.log = Compact(s.log, s.li.idx)] ELSE s
+
+
 \* static membership in this module's core; Membership.tla refines these two
 VotersOf(s)  == InitVoters
 MembersOf(s) == InitVoters
@@ -76,26 +94,46 @@ InitNode ==
     log |-> [base |-> 0, bterm |-> 0, ents |-> <<BootEntry>>],
     commit |-> 0,
     next |-> [p \in Node |-> 1], match |-> [p \in Node |-> 0],
-    votes |-> 0, asked |-> {}, pre |-> FALSE ]        \* current vote round: counter, peers asked, prevote?
+    votes |-> 0, asked |-> {}, pre |-> FALSE,         \* current vote round: counter, peers asked, prevote?
+    dterm |-> 0, dvote |-> Nil,                       \* term / vote as last persisted (what a crash leaves)
+    pend |-> <<>>,                                    \* index -> submitted value: futures of replicated operations
+    li |-> [idx |-> 0, term |-> 0],                   \* lastIncludedIndex / lastIncludedTerm: the *node's* boundary (the
+                                                      \* log's own boundary is log.base; the code updates them separately)
+    snap |-> [idx |-> 0, term |-> 0],                 \* newest published snapshot (durable); its content is the operations up to idx
+    arm |-> FALSE,                                    \* the state machine will ask for a snapshot after the next applied entry
+    rs |-> [idx |-> 0, term |-> 0, off |-> 0],        \* partial incoming snapshot file (idx = 0: none)
+    soff |-> [p \in Node |-> 0] ]                     \* leader: read offset in the snapshot file being sent to p
 
 -----------------------------------------------------------------------------
 (* Role changes, as in the code *)
 
-\* becomeFollower: the vote is forgotten only when the term changes (fix 19aa842; the
-\* weakening restores the old behaviour)
-BecomeFollower(s, t) ==
-  [s EXCEPT !.role = "F", !.term = t,
-            !.vote = IF t # s.term \/ "ClearVoteSameTerm" \in W THEN Nil ELSE s.vote]
+\* Persist(s, site): persistTermAndVote at one of the code's call sites
+Persist(s, site) ==
+  IF ("NoPersist@" \o site) \in W THEN s ELSE [s EXCEPT !.dterm = s.term, !.dvote = s.vote]
+
+\* becomeFollower, called from `site' (rv, ae_hi, ae_eq, aer, rvr): the vote is forgotten only
+\* when the term changes (fix 19aa842; ClearVoteSameTerm restores the old behaviour), term and
+\* vote are persisted, pending futures are failed (ErrNotLeader).  The per-site weakenings
+\* model a call site that does the step-down by hand and forgets one of these duties.
+BecomeFollower(s, t, site) ==
+  LET s1 == [s EXCEPT !.role = "F", !.term = t,
+                      !.vote = IF ("KeepVote@" \o site) \in W THEN s.vote
+                               ELSE IF t # s.term \/ "ClearVoteSameTerm" \in W THEN Nil ELSE s.vote,
+                      !.pend = IF ("KeepPend@" \o site) \in W \/ "PendingNotCleared" \in W THEN s.pend ELSE <<>>,
+                      \* resetSnapshotFiles: a partial incoming snapshot is discarded, open readers are closed
+                      !.rs = [idx |-> 0, term |-> 0, off |-> 0], !.soff = [p \in Node |-> 0]] IN
+  Persist(s1, site)
 
 BecomeLeader(s, n) ==
   [s EXCEPT !.role = "L",
+            !.rs = [idx |-> 0, term |-> 0, off |-> 0], !.soff = [p \in Node |-> 0],
             !.next = [p \in Node |-> LastIdx(s.log) + 1],
             !.match = IF "MatchNotReset" \in W THEN s.match ELSE [p \in Node |-> 0],
             !.log = AppendTo(s.log, <<Entry(s.term, "noop", Nil)>>)]
 
 \* becomeCandidate + start of a real vote round
 BecomeCandidate(s, n) ==
-  [s EXCEPT !.role = "C", !.term = s.term + 1, !.vote = n, !.votes = 1, !.asked = {}, !.pre = FALSE]
+  Persist([s EXCEPT !.role = "C", !.term = s.term + 1, !.vote = n, !.votes = 1, !.asked = {}, !.pre = FALSE], "cand")
 
 -----------------------------------------------------------------------------
 (* RequestVote *)
@@ -117,12 +155,12 @@ HandleRV(s, m, sticky) ==
   IF sticky /\ "NoStickiness" \notin W THEN reject(s)
   ELSE IF m.term < s.term THEN reject(s)
   ELSE
-    LET s1 == IF ~m.pre /\ m.term > s.term THEN BecomeFollower(s, m.term)
-              ELSE IF m.pre /\ m.term > s.term /\ "PrevoteBumpsTerm" \in W THEN BecomeFollower(s, m.term)
+    LET s1 == IF ~m.pre /\ m.term > s.term THEN BecomeFollower(s, m.term, "rv")
+              ELSE IF m.pre /\ m.term > s.term /\ "PrevoteBumpsTerm" \in W THEN BecomeFollower(s, m.term, "rv")
               ELSE s IN
     IF ~m.pre /\ s1.vote # Nil /\ s1.vote # m.from /\ "VoteNoVotedFor" \notin W THEN reject(s1)
     ELSE IF ~LogOk(s1, m) THEN reject(s1)
-    ELSE [s |-> IF m.pre THEN s1 ELSE [s1 EXCEPT !.vote = m.from],
+    ELSE [s |-> IF m.pre THEN s1 ELSE Persist([s1 EXCEPT !.vote = m.from], "grant"),
           reply |-> [term |-> s1.term, ok |-> TRUE]]
 
 \* the candidate's continuation after the RPC returns.  stay: after a prevote quorum the
@@ -131,7 +169,7 @@ OnRVReply(s, n, m, r, stay) ==
   IF s.term > m.term /\ "NoStaleVoteReplyCheck" \notin W THEN s
   ELSE
     LET s1 == IF r.ok THEN [s EXCEPT !.votes = s.votes + 1] ELSE s IN
-    IF r.term > m.term THEN BecomeFollower(s1, r.term)
+    IF r.term > m.term THEN BecomeFollower(s1, r.term, "rvr")
     ELSE
       LET s2 == IF Quorum(s1, s1.votes) /\ s1.role = "P"
                   THEN (IF stay THEN [s1 EXCEPT !.role = "C"] ELSE BecomeCandidate(s1, n))
@@ -144,15 +182,15 @@ OnRVReply(s, n, m, r, stay) ==
 
 AERequest(s, n, p) ==
   LET nx == s.next[p]
-      prev == Max(nx - 1, s.log.base)
-      prevt == IF prev > s.log.base /\ prev <= LastIdx(s.log) THEN TermAt(s.log, prev) ELSE s.log.bterm
-      es == IF nx > LastIdx(s.log) THEN <<>> ELSE Suffix(s.log, Max(nx, s.log.base + 1)) IN
+      prev == Max(nx - 1, s.li.idx)
+      prevt == IF prev > s.li.idx /\ prev <= LastIdx(s.log) THEN TermAt(s.log, prev) ELSE s.li.term
+      es == IF nx > LastIdx(s.log) THEN <<>> ELSE Suffix(s.log, Max(nx, s.li.idx + 1)) IN
   [kind |-> "ae", from |-> n, term |-> s.term, prev |-> prev, prevt |-> prevt, ents |-> es, commit |-> s.commit]
 
 \* first index of the run of entries carrying the term of the entry at i (not below base + 1)
-FirstOfTerm(lg, i) ==
+FirstOfTerm(lg, i, bound) ==
   LET t == At(lg, i).t
-      S == {j \in (lg.base + 1)..i : \A k \in j..i : At(lg, k).t = t} IN
+      S == {j \in (Max(bound, lg.base) + 1)..i : \A k \in j..i : At(lg, k).t = t} IN
   CHOOSE j \in S : \A k \in S : j <= k
 
 \* the request's entries against the follower's log: position of the first entry that is
@@ -166,15 +204,16 @@ HandleAE(s, m) ==
   LET rej(st, hint) == [s |-> st, reply |-> [term |-> st.term, ok |-> FALSE, hint |-> hint]] IN
   IF m.term < s.term THEN rej(s, 0)
   ELSE
-    LET s1 == IF m.term > s.term THEN BecomeFollower(s, m.term)
-              ELSE IF s.role \in {"C", "P"} THEN BecomeFollower(s, m.term)
+    LET s1 == IF m.term > s.term THEN BecomeFollower(s, m.term, "ae_hi")
+              ELSE IF s.role \in {"C", "P"} THEN BecomeFollower(s, m.term, "ae_eq")
               ELSE s
         lg == s1.log IN
-    IF lg.base > m.prev /\ "NoPrevCheck" \notin W THEN rej(s1, lg.base + 1)
+    \* the boundary the handler checks against is the node's lastIncludedIndex/Term
+    IF s1.li.idx > m.prev /\ "NoPrevCheck" \notin W THEN rej(s1, s1.li.idx + 1)
     ELSE IF LastIdx(lg) < m.prev /\ "NoPrevCheck" \notin W THEN rej(s1, LastIdx(lg) + 1)
-    ELSE IF lg.base = m.prev /\ lg.bterm # m.prevt /\ "NoPrevCheck" \notin W THEN rej(s1, lg.base)
-    ELSE IF lg.base < m.prev /\ HasIdx(lg, m.prev) /\ At(lg, m.prev).t # m.prevt /\ "NoPrevCheck" \notin W
-           THEN rej(s1, FirstOfTerm(lg, m.prev))
+    ELSE IF s1.li.idx = m.prev /\ s1.li.term # m.prevt /\ "NoPrevCheck" \notin W THEN rej(s1, s1.li.idx)
+    ELSE IF s1.li.idx < m.prev /\ HasIdx(lg, m.prev) /\ At(lg, m.prev).t # m.prevt /\ "NoPrevCheck" \notin W
+           THEN rej(s1, FirstOfTerm(lg, m.prev, s1.li.idx))
     ELSE
       LET j == FirstNew(lg, m)
           lg2 == IF "TruncateAlways" \in W /\ LastIdx(lg) > m.prev + Len(m.ents)
@@ -201,7 +240,7 @@ CommitIndexOf(s, n) ==
 OnAEReply(s, n, p, m, r) ==
   IF p \notin MembersOf(s) \/ s.role # "L" THEN s
   ELSE IF m.term # s.term /\ "NoStaleAEReplyCheck" \notin W THEN s
-  ELSE IF r.term > s.term THEN BecomeFollower(s, r.term)
+  ELSE IF r.term > s.term THEN BecomeFollower(s, r.term, "aer")
   ELSE IF ~r.ok THEN [s EXCEPT !.next[p] = r.hint]
   ELSE
     LET top == m.prev + Len(m.ents) IN
@@ -209,6 +248,54 @@ OnAEReply(s, n, p, m, r) ==
       THEN LET s1 == [s EXCEPT !.next[p] = Max(s.next[p], top + 1), !.match[p] = top] IN
            [s1 EXCEPT !.commit = CommitIndexOf(s1, n)]
       ELSE s
+
+
+-----------------------------------------------------------------------------
+(* InstallSnapshot.  The sender reads the rest of the file into one request (Done iff fewer *)
+(* bytes than a chunk were read) and re-synchronises its offset from BytesWritten; sizes are *)
+(* in chunk units: SnapSize = 1 -> one request carries everything and is Done, SnapSize = 2  *)
+(* -> the first carries everything and is not Done, the second is empty and Done.            *)
+
+ISRequest(s, n, p) ==
+  LET off == s.soff[p]
+      nbytes == SnapSize - off IN
+  [kind |-> "is", from |-> n, term |-> s.term, idx |-> s.snap.idx, sterm |-> s.snap.term,
+   off |-> off, n |-> nbytes, done |-> nbytes < 2 \/ SnapSize = 1]
+
+HandleIS(s, m) ==
+  LET rep(st, w) == [s |-> st, reply |-> [term |-> st.term, written |-> w]] IN
+  IF s.term > m.term THEN rep(s, 0)
+  ELSE
+    LET s1 == IF s.term < m.term THEN BecomeFollower(s, m.term, "is_hi")
+              ELSE IF s.role \in {"C", "P"} THEN BecomeFollower(s, m.term, "is_eq")
+              ELSE s IN
+    \* nothing new: acknowledged since fix ce19024 (before: zero bytes written)
+    IF s1.li.idx >= m.idx \/ s1.commit >= m.idx
+      THEN rep(s1, IF "NothingNewZero" \in W THEN 0 ELSE m.off + m.n)
+    ELSE
+      \* an incomplete file of an older snapshot is discarded; a file is created if there is none
+      LET f == IF s1.rs.idx = 0 \/ s1.rs.idx < m.idx THEN [idx |-> m.idx, term |-> m.sterm, off |-> 0] ELSE s1.rs IN
+      IF m.off # f.off THEN rep([s1 EXCEPT !.rs = f], f.off)
+      ELSE
+        LET f2 == [f EXCEPT !.off = f.off + m.n] IN
+        IF ~m.done THEN rep([s1 EXCEPT !.rs = f2], f2.off)
+        ELSE
+          \* publish (under the label the file was created with); the node's boundary comes from the request
+          LET pub == [idx |-> f2.idx, term |-> f2.term]
+              s2 == [s1 EXCEPT !.rs = [idx |-> 0, term |-> 0, off |-> 0], !.snap = pub,
+                               !.li = [idx |-> m.idx, term |-> m.sterm]]
+              keep == HasIdx(s2.log, m.idx) /\ (TermAt(s2.log, m.idx) = m.sterm \/ "InstallKeepsLogAnyTerm" \in W) IN
+          IF keep
+            THEN rep(CompactParked(s2), f2.off)       \* log kept; compacted once the boundary is applied
+            ELSE \* restore the state machine from the newest snapshot, discard the whole log
+                 rep([s2 EXCEPT !.commit = m.idx, !.log = [base |-> m.idx, bterm |-> m.sterm, ents |-> <<>>],
+                                !.pend = s2.pend], f2.off)
+
+OnISReply(s, n, p, m, r) ==
+  IF r.term > s.term THEN BecomeFollower(s, r.term, "isr")
+  ELSE IF r.written # m.off THEN [s EXCEPT !.soff[p] = r.written]
+  ELSE IF ~m.done THEN s
+  ELSE [s EXCEPT !.soff[p] = 0, !.match[p] = m.idx, !.next[p] = m.idx + 1]
 
 -----------------------------------------------------------------------------
 (* History and action-level property observations *)
@@ -227,6 +314,14 @@ CommitViolation(c, old, new) ==
 CompletenessViolation(c, s) ==
   \E i \in DOMAIN c : i > s.log.base /\ (~HasIdx(s.log, i) \/ At(s.log, i) # c[i])
 
+\* futures whose index the node has applied are resolved and forgotten (an index applied as a
+\* no-op or configuration entry leaves its future dangling in the code as well)
+Fin(old, new) ==
+  LET s1 == [new EXCEPT !.pend = [i \in {j \in DOMAIN new.pend : ~(j > old.commit /\ j <= new.commit /\ HasIdx(new.log, j) /\ At(new.log, j).k = "op")}
+                                   |-> new.pend[i]]]
+      s2 == IF new.commit > old.commit THEN CompactParked(s1) ELSE s1 IN
+  IF s2.commit > old.commit THEN TakeSnapshot(s2) ELSE s2
+
 \* bookkeeping shared by all actions that change node n from `old' to `new'
 Observe(n, old, new, el, c, vd, v) ==
   LET becameLeader == old.role # "L" /\ new.role = "L"
@@ -242,6 +337,12 @@ Observe(n, old, new, el, c, vd, v) ==
                      THEN {"LeaderAppendOnly"} ELSE {})
               \cup (IF cast /\ \E w \in vd : w[1] = n /\ w[2] = new.term /\ w[3] # new.vote
                      THEN {"OneVotePerTerm"} ELSE {})
+              \* a future resolves (the node applies the index) with an entry other than the one submitted
+              \* (`new' is the state after the handler, before Fin removes the resolved futures: a
+              \* step-down in the same step has already failed them)
+              \cup (IF \E i \in NewlyCommitted(old, new) : i \in DOMAIN new.pend /\ At(new.log, i).k = "op"
+                                                            /\ At(new.log, i).v # new.pend[i]
+                     THEN {"FutureTruth"} ELSE {})
   IN [el |-> el2, c |-> CommNext(c, old, new), vd |-> vd2, v |-> v2]
 
 \* apply the observation of one or two changed nodes to the history variables
@@ -280,7 +381,7 @@ TimerFire(n) ==
                ELSE IF s1.role = "P" /\ "SingleVoterNoTerm" \notin W THEN BecomeLeader(BecomeCandidate(s1, n), n)
                ELSE BecomeLeader([s1 EXCEPT !.pre = FALSE], n)
          s3 == IF s2.role = "L" /\ SingleServer(s2, n) THEN [s2 EXCEPT !.commit = CommitIndexOf(s2, n)] ELSE s2 IN
-     /\ ns' = [ns EXCEPT ![n] = s3]
+     /\ ns' = [ns EXCEPT ![n] = Fin(s, s3)]
      /\ Hist1(n, s3)
   /\ UNCHANGED net
 
@@ -298,7 +399,7 @@ RVExchange(n, p) ==
            h == HandleRV(ns[p], m, sticky)
            c == OnRVReply([s EXCEPT !.asked = s.asked \cup {p}], n, m, h.reply, stay)
            c2 == IF c.role = "L" /\ SingleServer(c, n) THEN [c EXCEPT !.commit = CommitIndexOf(c, n)] ELSE c IN
-       /\ ns' = [ns EXCEPT ![p] = h.s, ![n] = c2]
+       /\ ns' = [ns EXCEPT ![p] = Fin(ns[p], h.s), ![n] = Fin(s, c2)]
        /\ Hist2(n, c2, p, h.s)
   /\ UNCHANGED <<net, budget>>
 
@@ -323,12 +424,12 @@ AEExchange(n, p) ==
   /\ "ae" \notin AsyncKinds
   /\ n # p /\ Up(n) /\ Up(p)
   /\ s.role = "L" /\ p \in MembersOf(s)
-  /\ s.next[p] > s.log.base            \* otherwise a snapshot is sent (Snapshot.tla)
+  /\ s.next[p] > s.li.idx              \* otherwise a snapshot is sent (ISExchange)
   /\ Spend("ae")
   /\ LET m == AERequest(s, n, p)
          h == HandleAE(ns[p], m)
          c == OnAEReply(s, n, p, m, h.reply) IN
-     /\ ns' = [ns EXCEPT ![p] = h.s, ![n] = c]
+     /\ ns' = [ns EXCEPT ![p] = Fin(ns[p], h.s), ![n] = Fin(s, c)]
      /\ Hist2(n, c, p, h.s)
   /\ UNCHANGED net
 
@@ -336,13 +437,41 @@ AEHalf(n, p) ==
   LET s == ns[n] IN
   /\ "ae" \notin AsyncKinds
   /\ n # p /\ Up(n) /\ Up(p)
-  /\ s.role = "L" /\ p \in MembersOf(s) /\ s.next[p] > s.log.base
+  /\ s.role = "L" /\ p \in MembersOf(s) /\ s.next[p] > s.li.idx
   /\ Spend("half") /\ budget["ae"] > 0
   /\ LET m == AERequest(s, n, p)
          h == HandleAE(ns[p], m) IN
      /\ h.s # ns[p]
-     /\ ns' = [ns EXCEPT ![p] = h.s]
+     /\ ns' = [ns EXCEPT ![p] = Fin(ns[p], h.s)]
      /\ Hist1(p, h.s)
+  /\ UNCHANGED net
+
+
+\* the state machine will ask for a snapshot after the next entry it applies
+ArmSnapshot(n) ==
+  /\ Up(n) /\ ~ns[n].arm /\ MaxSnap > 0
+  /\ Spend("snap")
+  /\ ns' = [ns EXCEPT ![n].arm = TRUE]
+  /\ UNCHANGED <<net, elected, comm, voted, viol>>
+
+\* one InstallSnapshot RPC, synchronously (sent instead of AppendEntries when the follower's
+\* next index is at or below the leader's boundary)
+ISExchange(n, p) ==
+  LET s == ns[n] IN
+  /\ n # p /\ Up(n) /\ Up(p)
+  /\ s.role = "L" /\ p \in MembersOf(s)
+  /\ s.next[p] <= s.li.idx /\ s.li.idx > 0
+  /\ Spend("ae")
+  \* At this grain the transfer is one step: the file from offset 0 to the end, then the
+  \* completion on the sender.  (How many requests that takes in the code depends on the
+  \* sender's file offset, which every lost request advances; the request-level operators
+  \* ISRequest / HandleIS / OnISReply with offsets are exercised at the handler grain.)
+  /\ LET m == [ISRequest([s EXCEPT !.soff[p] = 0], n, p) EXCEPT !.n = SnapSize, !.done = TRUE]
+         h == HandleIS([ns[p] EXCEPT !.rs = [idx |-> 0, term |-> 0, off |-> 0]], m)
+         c == IF h.reply.term > s.term THEN BecomeFollower(s, h.reply.term, "isr")
+              ELSE [s EXCEPT !.soff[p] = 0, !.match[p] = m.idx, !.next[p] = m.idx + 1] IN
+     /\ ns' = [ns EXCEPT ![p] = Fin(ns[p], h.s), ![n] = Fin(s, c)]
+     /\ Hist2(n, c, p, h.s)
   /\ UNCHANGED net
 
 ClientSubmit(n, v) ==
@@ -351,9 +480,11 @@ ClientSubmit(n, v) ==
   /\ LastIdx(s.log) < MaxLog
   /\ \A m \in Node : \A j \in 1..Len(ns[m].log.ents) : ns[m].log.ents[j].v # v     \* each payload submitted once
   /\ Spend("client")
-  /\ LET s1 == [s EXCEPT !.log = AppendTo(s.log, <<Entry(s.term, "op", v)>>)]
+  /\ LET s1 == [s EXCEPT !.log = AppendTo(s.log, <<Entry(s.term, "op", v)>>),
+                         !.pend = [i \in DOMAIN s.pend \cup {LastIdx(s.log) + 1} |->
+                                     IF i = LastIdx(s.log) + 1 THEN v ELSE s.pend[i]]]
          s2 == IF SingleServer(s1, n) THEN [s1 EXCEPT !.commit = CommitIndexOf(s1, n)] ELSE s1 IN
-     /\ ns' = [ns EXCEPT ![n] = s2]
+     /\ ns' = [ns EXCEPT ![n] = Fin(s, s2)]
      /\ Hist1(n, s2)
   /\ UNCHANGED net
 
@@ -362,12 +493,15 @@ Crash(n) ==
   LET s == ns[n] IN
   /\ Up(n)
   /\ Spend("crash")
-  /\ LET s1 == [InitNode EXCEPT !.role = "D",
-                                !.term = IF "TermNotPersisted" \in W THEN 0 ELSE s.term,
-                                !.vote = IF "VoteNotPersisted" \in W \/ "TermNotPersisted" \in W THEN Nil ELSE s.vote,
-                                !.log = s.log, !.commit = s.log.base] IN
+  /\ LET dt == IF "TermNotPersisted" \in W THEN 0 ELSE s.dterm
+         dv == IF "VoteNotPersisted" \in W \/ "TermNotPersisted" \in W THEN Nil ELSE s.dvote
+         \* restore(): the log as it is on disk, boundary and commit/applied from the newest snapshot
+         s1 == [InitNode EXCEPT !.role = "D", !.term = dt, !.vote = dv, !.dterm = dt, !.dvote = dv,
+                                !.log = s.log, !.snap = s.snap, !.li = s.snap, !.commit = s.snap.idx] IN
      /\ ns' = [ns EXCEPT ![n] = s1]
-     /\ elected' = elected /\ comm' = comm /\ voted' = voted /\ viol' = viol
+     \* C08: the term a node has shown to others never decreases, not even across a crash
+     /\ elected' = elected /\ comm' = comm /\ voted' = voted
+     /\ viol' = viol \cup (IF dt < s.term THEN {"TermMonotone"} ELSE {})
   /\ UNCHANGED net
 
 Restart(n) ==
@@ -411,7 +545,7 @@ RVReply(m) ==
        LET s == ns[m.to]
            sameRound == s.pre = m.req.pre /\ (IF m.req.pre THEN s.term + 1 ELSE s.term) = m.req.term /\ s.role \in {"P", "C"}
            c == IF sameRound THEN OnRVReply(s, m.to, m.req, m.reply, stay)
-                ELSE IF m.reply.term > m.req.term /\ ~(s.term > m.req.term) THEN BecomeFollower(s, m.reply.term)
+                ELSE IF m.reply.term > m.req.term /\ ~(s.term > m.req.term) THEN BecomeFollower(s, m.reply.term, "rvr")
                 ELSE s IN
        /\ ns' = [ns EXCEPT ![m.to] = c]
        /\ Hist1(m.to, c)
@@ -422,7 +556,7 @@ AESend(n, p) ==
   LET s == ns[n] IN
   /\ "ae" \in AsyncKinds
   /\ n # p /\ Up(n)
-  /\ s.role = "L" /\ p \in MembersOf(s) /\ s.next[p] > s.log.base
+  /\ s.role = "L" /\ p \in MembersOf(s) /\ s.next[p] > s.li.idx
   /\ Cardinality(net) < MaxNet
   /\ Spend("ae")
   /\ net' = net \cup {[AERequest(s, n, p) EXCEPT !.kind = "aeq"] @@ [to |-> p]}
@@ -431,7 +565,7 @@ AESend(n, p) ==
 AEHandle(m) ==
   /\ m \in net /\ m.kind = "aeq" /\ Up(m.to)
   /\ LET h == HandleAE(ns[m.to], m) IN
-     /\ ns' = [ns EXCEPT ![m.to] = h.s]
+     /\ ns' = [ns EXCEPT ![m.to] = Fin(ns[m.to], h.s)]
      /\ net' = (net \ {m}) \cup {[kind |-> "aer", from |-> m.to, to |-> m.from, req |-> m, reply |-> h.reply]}
      /\ Hist1(m.to, h.s)
   /\ UNCHANGED budget
@@ -439,7 +573,7 @@ AEHandle(m) ==
 AEReply(m) ==
   /\ m \in net /\ m.kind = "aer" /\ Up(m.to)
   /\ LET c == OnAEReply(ns[m.to], m.to, m.from, m.req, m.reply) IN
-     /\ ns' = [ns EXCEPT ![m.to] = c]
+     /\ ns' = [ns EXCEPT ![m.to] = Fin(ns[m.to], c)]
      /\ Hist1(m.to, c)
   /\ net' = net \ {m}
   /\ UNCHANGED budget
@@ -454,14 +588,15 @@ Lose(m) ==
 Init ==
   /\ ns = [n \in Node |-> InitNode]
   /\ net = {}
-  /\ budget = [timer |-> MaxTimer, ae |-> MaxAE, client |-> MaxClient, crash |-> MaxCrash, half |-> MaxHalf]
+  /\ budget = [timer |-> MaxTimer, ae |-> MaxAE, client |-> MaxClient, crash |-> MaxCrash, half |-> MaxHalf, snap |-> MaxSnap]
   /\ elected = {} /\ comm = <<>> /\ voted = {} /\ viol = {}
 
 Next ==
   \/ \E n \in Node : TimerFire(n)
   \/ \E n, p \in Node : RVExchange(n, p) \/ RVHalf(n, p) \/ AEExchange(n, p) \/ AEHalf(n, p)
   \/ \E n \in Node, v \in Value : ClientSubmit(n, v)
-  \/ \E n \in Node : Crash(n) \/ Restart(n)
+  \/ \E n \in Node : Crash(n) \/ Restart(n) \/ ArmSnapshot(n)
+  \/ \E n, p \in Node : ISExchange(n, p)
   \/ \E n, p \in Node : RVSend(n, p) \/ AESend(n, p)
   \/ \E m \in net : RVHandle(m) \/ RVReply(m) \/ AEHandle(m) \/ AEReply(m) \/ Lose(m)
 
